@@ -110,6 +110,30 @@ class SSeq:
     c.oblige("seq-index-in-range", sym.sand(k >= 0, k < self.n), kind="definedness")
     return self._at(k)
 
+  def _pyvc_sum(self, start=0):
+    c = cur()
+    probe = self._at(SInt(c.fresh_int("k_sum")))
+    if isinstance(probe, (SInt, int)) and not isinstance(probe, bool):
+      from . import spec as _spec
+      return _spec.prefix_sum(self, self.n) + start
+    key = ("realsum", id(self))
+    if key not in c.ghost:
+      c.ghost[key] = sym.SReal(c.fresh_real("sum_" + self.name.split("[")[0]))
+    return c.ghost[key] + start
+
+  def _pyvc_sorted(self, key, reverse):
+    """sorted() of a symbolic sequence: WLOG the sequence is given in sorted order
+    (renaming of keys); the order is an obligation on the caller's assumptions."""
+    c = cur()
+    i = SInt(c.fresh_int("i_sorted"))
+    a, b = self._at(i), self._at(i + 1)
+    ka, kb = (key(a), key(b)) if key else (a, b)
+    c.oblige(f"sorted-input-is-in-order@{getattr(c, 'site', '')}",
+             sym.implies(sym.sand(i >= 0, i + 1 < self.n), (ka >= kb) if reverse else (ka <= kb)),
+             kind="engine-side-condition")
+    c.axioms_used.add("sorted(): returns a permutation ordered by the key (sequence given in sorted order w.l.o.g.)")
+    return self
+
   # spec functions ---------------------------------------------------------
   def prod_prefix(self, i):
     """Product of the first i elements (uninterpreted, with unfolding facts)."""
@@ -265,6 +289,67 @@ def map_rule(cfr, gen, seq, elt):
   at(k0)
   c.axioms_used.add("comprehension over a symbolic-length sequence is a pointwise map (element expression assumed pure)")
   return SSeq(seq._pyvc_symlen(), at, "map")
+
+
+class SMap:
+  """dict whose keys are the positions 0..size-1 (symbolic size) with a ghost Sum.
+
+  Store axioms of Sum (Lean Spec.sum_set / sum_append): appending v adds v;
+  overwriting position j replaces the old value by the new one in the sum."""
+
+  def __init__(self, size, vals, total):
+    self.size, self.vals, self.total = size, vals, total
+
+  def _pyvc_symlen(self):
+    return self.size
+
+  def _pyvc_at(self, k):
+    return k  # iteration over a dict yields its keys
+
+  def __getitem__(self, k):
+    c = cur()
+    c.oblige(f"dict-key-present@{getattr(c, 'site', '')}", sym.sand(k >= 0, k < self.size), kind="definedness")
+    return self.vals(k)
+
+  def __setitem__(self, k, v):
+    c = cur()
+    c.axioms_used.add("Sum over a finite map obeys the store axioms (Lean Spec.sum_set, sum_append)")
+    old_vals, old_size, old_total = self.vals, self.size, self.total
+    is_new = (k == old_size)
+    c.oblige(f"dict-store-key-in-domain-or-next@{getattr(c, 'site', '')}", sym.sand(k >= 0, k <= old_size),
+             kind="engine-side-condition")
+    kk = k
+    self.vals = lambda j: sym.ite(j == kk, v, old_vals(j))
+    self.size = sym.ite(is_new, old_size + 1, old_size)
+    self.total = sym.ite(is_new, old_total + v, old_total - old_vals(kk) + v)
+
+  def update(self, other):
+    for k, v in other.items():
+      self[k] = v
+
+  def values(self):
+    return _SMapValues(self)
+
+  def __len__(self):
+    raise Unsupported("len() of symbolic dict reached CPython")
+
+  def __iter__(self):
+    raise Unsupported("iteration over symbolic dict reached CPython")
+
+
+class _SMapValues:
+
+  def __init__(self, m):
+    self.m = m
+
+  def _pyvc_sum(self, start=0):
+    return self.m.total + start
+
+  def _pyvc_symlen(self):
+    return self.m.size
+
+  def _pyvc_at(self, k):
+    return self.m.vals(k)
 
 
 class SRange:
